@@ -245,22 +245,10 @@ let handle kind c =
     let (data, data_sr) = read_file_tok c in
     let real = read_parse_obs c in
     (* the harness's encoder against the Coq reader of the layout *)
-    let exact_limit = String.length policy > 11 && String.sub policy (String.length policy - 11) 11 = "-exactlimit" in
-    if exact_limit then begin
-      (* the encoder stored the exact end of the last record as the limit (the layout says "byte
-         offset of the end of counter records"; the library re-rounds it).  The layout checker of
-         this framework wants a 32-aligned limit, so such a file is judged against the encoder's own
-         list: the library has to read back exactly what the independent writer wrote *)
-      let want = norm_obs (match meta_kv meta with Some kv -> kv | None -> [])
-          (List.map (fun (nm, v) -> (decode_stack nm, v)) cs) in
-      let dn = List.map (fun (nm, _) -> str (decode_stack nm)) cs in
-      let distinct = List.length (List.sort_uniq compare dn) = List.length dn in
-      check_eq "parse-of-spec-file" show_obs (obs_of_model (parse data)) real;
-      if distinct && real <> want then
-        prop "library-reads-spec-file"
-          (Printf.sprintf "independent encoder policy %s (limit = exact end of the last record): Parse=%s, written: %s" policy
-             (clip300 (show_obs real)) (clip300 (show_obs want)))
-    end else
+    (* policies ending in -exactlimit store the exact end of the last record's bytes as the
+       limit (v1: "the byte offset of the end of counter records", not a multiple of 32);
+       the layout checker accepts that, so these files go the same way as all the others:
+       Coq reader of the layout, the model of Parse and the real Parse *)
     if data_sr = None then diff "spec-file-wf" ~model:"not well-formed" ~impl:policy
     else begin
       let want = norm_obs (match meta_kv meta with Some kv -> kv | None -> [])
